@@ -94,13 +94,32 @@ STREAM_CONFIGS = [
                        MaxStream=3), 't'),
 ]
 # deliberately wrong variants of L and the H formula each must violate
-MUTATIONS = [('close_on_represent_error', 'H_FaultTransparency'), ('marks_on_nodes', 'H_CallerObjects'),
-             ('shared_resolver_stack', 'H_Globals'), ('keep_serialized', 'H_Documents'), ('keep_anchors', 'H_Documents'), ('th_in_place', 'H_Globals'), ('th_update_only', 'H_Documents'),
-             ('keep_anchor_id', 'H_Documents'), ('keep_tag_prefixes', 'H_Documents'),
-             ('dispose_raises', 'H_FaultTransparency'), ('wrap_write_error', 'H_FaultTransparency')]
-SENS = cfg(LoadOps=['load_all'], DumpOps=['dump_all', 'serialize_all', 'emit'], Classes=['user'], IOs=['file'],
-           Docs=['plain', 'tagdir', 'usetag', 'anchors', 'usealias'], Vals=['plainv', 'shared2', 'tagged', 'usesve', 'scalarv', 'urepr'], MaxHist=1,
-           MaxStream=2, Faults=True, KeepHist=False)     # Classes user: path resolvers registered
+# deliberately wrong variants of L: (name, the H formula it must violate, the smallest pool that shows it)
+_M = dict(LoadOps=[], GenOps=[], DumpOps=[], Classes=['user'], IOs=['file'], Docs=[], Vals=[], MaxHist=1, MaxStream=2, Faults=True,
+          KeepHist=False)
+MUTATION_CFGS = [
+    ('close_on_represent_error', 'H_FaultTransparency', dict(DumpOps=['dump_all'], Vals=['scalarv', 'urepr'])),
+    ('marks_on_nodes', 'H_CallerObjects', dict(DumpOps=['serialize_all'], Vals=['plainv'], MaxStream=1)),
+    ('shared_resolver_stack', 'H_Globals', dict(LoadOps=['load_all'], Docs=['usetag', 'paths'], MaxStream=1)),
+    ('keep_serialized', 'H_Documents', dict(DumpOps=['serialize_all'], Vals=['plainv'])),
+    ('keep_anchors', 'H_Documents', dict(LoadOps=['load_all'], Docs=['anchors', 'usealias'])),
+    ('th_in_place', 'H_Globals', dict(LoadOps=['load_all'], Docs=['plain', 'tagdir'])),
+    ('th_update_only', 'H_Documents', dict(LoadOps=['load_all'], Docs=['tagdir', 'usetag'])),
+    ('keep_anchor_id', 'H_Documents', dict(DumpOps=['dump_all'], Vals=['shared2'])),
+    ('keep_tag_prefixes', 'H_Documents', dict(DumpOps=['emit'], Vals=['tagged', 'usesve'])),
+    ('dispose_raises', 'H_FaultTransparency', dict(DumpOps=['dump_all'], Vals=['shared2', 'plainv'])),
+    ('wrap_write_error', 'H_FaultTransparency', dict(DumpOps=['dump_all'], Vals=['plainv'], MaxStream=1)),
+]
+MUTATIONS = [(m, h) for m, h, _ in MUTATION_CFGS]
+
+
+def mutation_cfg(name):
+    for m, _, over in MUTATION_CFGS:
+        if m == name:
+            return cfg(**dict(_M, Mutation=m, **over))
+    raise KeyError(name)
+
+
 MICRO_ACTIONS = ['CreateLoader', 'CreateDumper', 'Read', 'ProcessDirectives', 'ImplicitDocumentStart', 'DocumentBoundary',
                  'ParseComposeNode', 'ComposeDocumentReset', 'ConstructObject', 'DrainStateGenerators',
                  'ConstructDocumentReset', 'SerializerOpen', 'SerializerClose', 'RepresentData', 'RepresentReset',
@@ -345,7 +364,7 @@ def main(tier, replay=None):
             'design': ex.submit(run_tlc, 'C11_design', 'MC_Api_hist.cfg', design, 6 if tier == 'quick' else 8, 2400)}
     muts = MUTATIONS if tier == 'thorough' else MUTATIONS[:0]
     for m, _ in muts:
-        futs['mut_' + m] = ex.submit(run_tlc, 'C11_mut_' + m, 'MC_Api_hist.cfg', dict(SENS, Mutation=m), 2, 900)
+        futs['mut_' + m] = ex.submit(run_tlc, 'C11_mut_' + m, 'MC_Api_hist.cfg', mutation_cfg(m), 2, 900)
 
     # ---- (d), (e) MBT configurations
     hist_cfgs = [(n, c) for n, c, tiers in HIST_CONFIGS if letter in tiers]
